@@ -201,10 +201,19 @@ inline SGen valid_setting(Method m, const SOpts &o) {
         case 3: rounds = (unsigned long long)pick(1201, 6000); break;
         case 4: rounds = (unsigned long long)pick(6001, 200000); break;
       }
+      bool deployed = coin(1, o.cheap ? 40 : 15);
+      if (deployed) {
+        // round numbers real deployments write (six digits - passlib's defaults 535000 / 656000 among them - and the
+        // cheapest seven-digit one); run under the governor's over-budget quota
+        rk = 4;
+        rounds = o.cheap ? oneof<unsigned long long>({100000, 100001, 123456}) : oneof<unsigned long long>({100000, 535000, 656000, 999999, 1000000});
+      }
       if (rk) s += "rounds=" + std::to_string(rounds) + "$";
       cls = rn[rk];
+      if (deployed) cls += "-deployed";
       int k = wpick({1, 3, 3, 2});
       size_t n = k == 0 ? 0 : k == 1 ? (size_t)pick(1, 15) : k == 2 ? 16 : (size_t)pick(17, 30);
+      if (deployed && coin(2, 3)) { k = 2; n = 16; }
       static const char *nm[] = {"salt0", "saltshort", "salt16", "saltover"};
       cls += std::string("/") + nm[k];
       s += chars_from(PWSAFE_NODOLLAR, n);
@@ -439,9 +448,26 @@ inline Bytes respell_number(Bytes s, bool anybyte = true) {
   return s.substr(0, r.first) + alt + s.substr(r.first + r.second);
 }
 
+// yescrypt / gost-yescrypt: another value in the flavor field (first number of the parameter block), in its one- and
+// two-character encodings; nearly all of them are undefined variants that must be refused
+inline Bytes reflavor(const Bytes &s) {
+  size_t t = s.compare(0, 3, "$y$") == 0 ? 3 : s.compare(0, 4, "$gy$") == 0 ? 4 : 0;
+  if (!t || s.size() <= t) return s;
+  size_t pos = t;
+  uint64_t old = 0;
+  if (!yvar_decode(s, pos, 0, old)) return s;
+  uint64_t v = coin(1, 3) ? (uint64_t)pick(0, 47) : coin() ? (uint64_t)pick(48, 300) : oneof<uint64_t>({48, 49, 55, 56, 63, 111, 112, 175, 239, 303, 558, 559});
+  if (v == old) v = old + 1;
+  return s.substr(0, t) + yvar_encode(v, 0) + s.substr(pos);
+}
+
 inline Bytes mutate(Bytes s, int maxedits = 3, bool anybyte = true) {
   if (coin(1, 8)) {
     Bytes t = respell_number(s, anybyte);
+    if (t != s) return t;
+  }
+  if ((s.compare(0, 3, "$y$") == 0 || s.compare(0, 4, "$gy$") == 0) && coin(1, 4)) {
+    Bytes t = reflavor(s);
     if (t != s) return t;
   }
   int n = (int)pick(1, maxedits);
